@@ -21,6 +21,20 @@ fn main() {
         println!("mpdref self-test ok");
         return;
     }
+    if args[1] == "trace-idx" {
+        // verif trace-idx <scenario> <idx…>: run one schedule given by choice indices, twice, and show the logs
+        let scn = props::loopprops::find_scenario_any(&args[2]).expect("unknown scenario");
+        let idx: Vec<usize> = args[3..].iter().filter_map(|a| a.parse().ok()).collect();
+        for round in 0..2 {
+            let mut ch = engines::loopmc::IndexChooser { idx: idx.clone() };
+            let t = engines::loopmc::run_once(&scn, &mut ch).expect("run");
+            println!("--- round {round}: choices {:?}", t.choice_names());
+            for l in t.render_log() {
+                println!("{l}");
+            }
+        }
+        return;
+    }
     if args[1] == "trace" {
         // verif trace <property> <scenario> [choice names…]  — run one schedule and print its log
         let case = serde_json::json!({"scenario": {"name": args[3]}, "choices": args[4..].to_vec()});
